@@ -399,7 +399,12 @@ def main_sync(args):
     except LookupError:
         _print_err("WARNING: The destination does not appear to be a project path.")
         raise
-    selection = _find_with_filter_or_none(args)
+    if args.filter and not args.job_id:
+        # "Only synchronize jobs matching the filter": the jobs of the SOURCE
+        # project (get_project() is the project of the working directory).
+        selection = source._find_job_ids(filter=parse_filter_arg(args.filter) or None)
+    else:
+        selection = _find_with_filter_or_none(args)
 
     if args.strategy:
         if args.strategy[0].isupper():
